@@ -117,7 +117,53 @@ def run(ctx: Ctx):
                 ok, why = False, f"mask constraint depends on instance data {sorted(miss)} that the checker's sibling constraint never reads"
             ctx.ob("C06.c", inst, ok, sl.where, why or f"mask {show_leaf(mleaf)}  =>  checker {show_leaf(cleaf)}",
                    construct=f"{sl.fi.qualname}:{cname_lit}:sibling:{mname}" + (":" + ",".join(sorted(miss)) if miss else ""))
+    accumulators(ctx)
     gate(ctx)
+
+
+CHECK_ACCUM = {
+    # env -> loop-carried per-route accumulators of the checker that restart at the depot
+    "SDVRPEnv": ["used_cap"], "CVRPTWEnv": ["curr_time"], "MTVRPEnv": ["curr_time", "curr_length"],
+}
+
+
+def accumulators(ctx: Ctx):
+    """C06.e: in the checker's simulation loop the per-route accumulator is reset at the depot as
+    the LAST write of the iteration (after the step's contribution was added) -- sibling of C01.e."""
+    for cname, names in CHECK_ACCUM.items():
+        path = T.CHECK_ENVS[cname][0]
+        env = EnvA(ctx.repo, path, cname)
+        sl = env.slot("check_solution_validity")
+        for nm in names:
+            phs = [n for n in vg.LOOP_BODY if True]
+            found = None
+            for leafnode in _all_nodes(sl):
+                if leafnode.op == "loopvar" and leafnode.args[0] == nm and leafnode.id in vg.LOOP_BODY:
+                    found = leafnode
+                    break
+            if found is None:
+                from ..model import AnalysisError
+                raise AnalysisError(f"{cname}.check_solution_validity: loop-carried accumulator {nm} not found")
+            body = nf.strip(vg.LOOP_BODY[found.id])
+            ok, why = False, f"end-of-iteration value of {nm} is {vg.show(body, 3)}"
+            if body.op == "store" and vg.is_const(body.args[2]) and float(body.args[2].args[0]) == 0.0:
+                cond = body.args[1]
+                c = nf.cmpnf(cond) if isinstance(cond, vg.S) else None
+                is_depot = c is not None and c[1] == "==0" and "actions" in vg.params_of(cond)
+                contributes = any(n is found for n in vg.walk(body.args[0])) and nf.strip(body.args[0]) is not found
+                ok = is_depot and contributes
+                why = f"{nm} <- (previous + contribution) then [{vg.show(cond, 3)}] := 0 as the last write: depot-condition {is_depot}, contribution added before the reset {contributes}"
+            ctx.ob("C06.e", f"{cname}.checker:{nm}:depot-reset-last", ok, sl.where, why, construct=f"{sl.fi.qualname}:{nm}:depot-reset-order")
+
+
+def _all_nodes(sl):
+    seen = set()
+    for e in sl.it.events:
+        if e.kind == "assert" and isinstance(e.data, vg.S):
+            for n in vg.walk(e.data):
+                if n.id not in seen:
+                    seen.add(n.id)
+                    yield n
 
 
 def nearest(leaves, lit: Lit) -> str:
